@@ -41,7 +41,7 @@ chk('C15','exploration',
     'The consumer loop is harness code written from the documented contract; true message boundaries come from the harness-side TLV walker on encoder output.',
     'deterministic simulation: seeded byte-stream segmentation/close faults around the real framing helpers, history oracle (exactly-once, ordered)', 'DESIGN.md 3 C15')
 chk('C18','exploration',
-    'Seeded schedule simulation: one shared Specification, 1-8 real caller threads whose interleaving is decided line by line (in 10% of the runs bytecode by bytecode) by the simulator (random switch p in {0.001..0.5}, PCT, round-robin, sequential), up to 50 mixed valid / corrupted / truncated / bit-flipped / structurally re-built (element dropped, doubled or swapped with all lengths recomputed) operations (encode, decode, and for BER/DER decode_with_length / decode_length) concentrated on a few hot types with fail-then-valid follow-ups, optional MemoryError injected at an arbitrary tick; every outcome compared with the same call alone on a freshly compiled Specification; inputs compared before/after; post-state behaviour digest and sequential re-sweep, amplified (history replayed up to 60 times) whenever the compiled type graph is no longer what it was after compile. Plus exhaustive single-pre-emption sweeps: for two operations on the same type every schedule "A runs k ticks, B runs to its end, A finishes" for every k and both roles (a seeded sample of k when k * ticks exceeds 4*10^7) - for a seeded pair and for the same failing call on both threads, once per kind of failure that occurs in the case.',
+    'Seeded schedule simulation: one shared Specification, 1-8 real caller threads whose interleaving is decided line by line (in 10% of the runs bytecode by bytecode) by the simulator (random switch p in {0.001..0.5}, PCT, round-robin, sequential), up to 50 mixed valid / corrupted / truncated / bit-flipped / structurally re-built (element dropped, doubled or swapped with all lengths recomputed) operations (encode, decode, and for BER/DER decode_with_length / decode_length) concentrated on a few hot types with fail-then-valid follow-ups, optional MemoryError injected at an arbitrary tick; every outcome compared with the same call alone on a freshly compiled Specification; inputs compared before/after; post-state behaviour digest and sequential re-sweep, amplified (history replayed up to 60 times) whenever the compiled type graph is no longer what it was after compile. Plus exhaustive single-pre-emption sweeps: for two operations on the same type every schedule "A runs k ticks, B runs to its end, A finishes" for every k and both roles (a seeded sample of k when k * ticks exceeds 2*10^7) - for a seeded pair and for the same failing call on both threads, once per kind of failure that occurs in the case.',
     'Pre-emption granularity is one Python source line inside /repo/asn1tools; races inside a line or inside C code are not explored. Operations whose reference run exhausts the step budget are excluded.',
     'deterministic simulation: baton-passing thread scheduler with seeded/explicit schedules, sequential reference model, fault injection (failing ops, allocation failure)', 'DESIGN.md 3 C18')
 chk('C13','exploration',
